@@ -98,6 +98,25 @@ fn main() {
                 }
             }
         }
+        // the same probing at every other version: a name accepted with more than one signature at ANY
+        // version has its signature check skipped there
+        let mut multi_at_some_version = false;
+        for v in &versions {
+            let mut cnt = 0;
+            for n in 0..=10usize {
+                for r in 0..3u8 {
+                    if probe(&module_with_import(name, n, r), *v) == 0 {
+                        cnt += 1;
+                    }
+                }
+            }
+            if cnt > 1 {
+                multi_at_some_version = true;
+            }
+        }
+        if multi_at_some_version && accepted.len() <= 1 {
+            ambiguous.push(name.clone());
+        }
         match accepted.len() {
             0 => not_importable.push(name.clone()),
             1 => {
